@@ -484,9 +484,9 @@ Section Sim.
      right-hand sides; ternaries with plain `=`), single-variable declarations with initialiser, scope ends, empty
      statements, conditional, counting and unconditional jumps to user labels, labels, interrupts, instruction calls
      with jump-free or ternary arguments (complex ones go through temporaries) *)
-  (* a declared variable with a jump-free initialiser *)
+  (* a declared variable, without initialiser or with a jump-free one *)
   Definition wfvar (n0 : nat) (x : nat * option expr) : Prop :=
-    (fst x < n0)%nat /\ exists e, snd x = Some e /\ locals_below n0 e = true /\ wt_pure [] e = true.
+    (fst x < n0)%nat /\ forall e, snd x = Some e -> locals_below n0 e = true /\ wt_pure [] e = true.
 
   Definition wf_stmt (n0 : nat) (st : sstmt) : Prop :=
     match st with
@@ -504,7 +504,7 @@ Section Sim.
     | SDecl ty vars =>
         (exists d e, vars = [(d, Some e)] /\ (d < n0)%nat /\ locals_below n0 e = true /\
                      (wt_pure [] e = true \/ wt_tern [] e = true))
-        \/ (vars <> [] /\ Forall (wfvar n0) vars)
+        \/ Forall (wfvar n0) vars
     end.
 
   Lemma mapM_ext {A B} (f h : A -> outcome B) l : (forall x, In x l -> f x = h x) -> mapM f l = mapM h l.
@@ -594,14 +594,25 @@ Section Sim.
   Lemma decl_list_static n0 t mask fuel ty0 : forall vars s c1 s1,
     lower_decl t mask fuel ty0 vars s = Ok (c1, s1) -> Forall (wfvar n0) vars -> (n0 <= g s)%nat ->
     (g s <= g s1)%nat /\ te_agree (g s) (te s) (te s1) /\ Forall (at_time t mask) c1 /\ labels_in (g s) (g s1) c1 /\
-    (vars <> [] -> touches c1) /\
+    (forallb no_init vars = false -> touches c1) /\
     (forall m, fresh m (g s) -> seek_mem lty c1 m = fold_left (fun m x => update m (VLoc (fst x)) (default_of ty0)) vars m).
   Proof.
     induction vars as [|[d init] rest IH]; intros s c1 s1 Hl Hwf Hn.
     - cbn in Hl. unfold ret in Hl. inversion Hl; subst. split; [lia|]. split; [apply te_agree_refl_|]. split; [constructor|].
-      split; [constructor|]. split; [intros H; contradiction|]. intros; reflexivity.
-    - pose proof (Forall_inv Hwf) as [Hd [e [Hi [Hb Hw]]]]. cbn [fst snd] in Hd, Hi. subst init.
+      split; [constructor|]. split; [intros H; discriminate|]. intros; reflexivity.
+    - pose proof (Forall_inv Hwf) as [Hd Hi0]. cbn [fst snd] in Hd, Hi0.
       rewrite lower_decl_cons in Hl. unfold seq, ret in Hl.
+      destruct init as [e|];
+        [destruct (Hi0 e eq_refl) as [Hb Hw]
+        |(* no initialiser: the marker only *)
+         destruct (lower_decl t mask fuel ty0 rest s) as [[cr sr]| | |] eqn:Elr; try discriminate;
+         inversion Hl; subst c1 s1; clear Hl;
+         destruct (IH s cr sr Elr (Forall_inv_tail Hwf) Hn) as [G2 [A2 [T2 [L2 [X2 N2]]]]];
+         (split; [exact G2|]); (split; [exact A2|]);
+         (split; [constructor; [exact I | exact T2]|]);
+         (split; [constructor; [exact I | exact L2]|]);
+         (split; [intros Hs0; cbn [forallb no_init snd andb] in Hs0; apply (touches_app_r [LAlloc d ty0]); exact (X2 Hs0)|]);
+         intros m Hm; cbn [app LowerShape.seek_mem fold_left fst]; apply N2; apply fresh_upd; [exact Hm | lia]].
       destruct (lower t mask fuel (CAssignOp (mkvar None (VLoc d)) None e) s) as [[ca sa]| | |] eqn:Ela; try discriminate.
       destruct (lower_decl t mask fuel ty0 rest sa) as [[cr sr]| | |] eqn:Elr; try discriminate.
       inversion Hl; subst c1 s1. clear Hl.
@@ -628,8 +639,21 @@ Section Sim.
     intros Hr. induction vars as [|[d init] rest IH]; intros s c1 s1 st r Hl Hwf Hn Ha Hfr Hst Hs.
     - cbn in Hl, Hs. unfold ret in Hl. inversion Hl; subst. inversion Hs; subst. cbn [fst snd].
       split; [|auto]. intros cmp. exists cmp. cbn. rewrite set_mem_id. reflexivity.
-    - pose proof (Forall_inv Hwf) as [Hd [e [Hi [Hb Hw]]]]. cbn [fst snd] in Hd, Hi. subst init.
+    - pose proof (Forall_inv Hwf) as [Hd Hi0]. cbn [fst snd] in Hd, Hi0.
       rewrite lower_decl_cons in Hl. unfold seq, ret in Hl.
+      destruct init as [e|];
+        [destruct (Hi0 e eq_refl) as [Hb Hw]
+        |(* no initialiser *)
+         destruct (lower_decl t mask fuel ty0 rest s) as [[cr sr]| | |] eqn:Elr; try discriminate;
+         inversion Hl; subst c1 s1; clear Hl;
+         rewrite sdecl_cons in Hs; cbv zeta in Hs;
+         assert (Hf1 : fresh (p_mem (set_mem st (update (p_mem st) (VLoc d) (default_of ty0)))) (g s))
+           by (cbn [p_mem set_mem]; apply fresh_upd; [exact Hfr | lia]);
+         destruct (IH s cr sr (set_mem st (update (p_mem st) (VLoc d) (default_of ty0))) r Elr (Forall_inv_tail Hwf) Hn Ha Hf1 Hst Hs)
+           as [Hrest [Hj [Hlg Hf3]]];
+         (split; [|auto]);
+         intros cmp; cbn [app LowerProg.wblk]; destruct (Hrest cmp) as [c' E]; exists c'; rewrite E;
+         rewrite set_mem_set_mem; reflexivity].
       destruct (lower t mask fuel (CAssignOp (mkvar None (VLoc d)) None e) s) as [[ca sa]| | |] eqn:Ela; try discriminate.
       destruct (lower_decl t mask fuel ty0 rest sa) as [[cr sr]| | |] eqn:Elr; try discriminate.
       inversion Hl; subst c1 s1. clear Hl.
@@ -656,8 +680,10 @@ Section Sim.
   Proof.
     induction vars as [|[d init] rest IH]; intros m r Hwf Hfr Hs.
     - cbn in Hs. inversion Hs; subst. auto.
-    - pose proof (Forall_inv Hwf) as [Hd [e [Hi _]]]. cbn [fst snd] in Hd, Hi. subst init.
+    - pose proof (Forall_inv Hwf) as [Hd _]. cbn [fst] in Hd.
       rewrite sdecl_cons in Hs. cbv zeta in Hs.
+      destruct init as [e|];
+        [|apply (IH (update m (VLoc d) (default_of ty0)) r (Forall_inv_tail Hwf)); [apply fresh_upd; assumption | exact Hs]].
       destruct (assign_e (update m (VLoc d) (default_of ty0)) (mkvar None (VLoc d)) None e) as [m2| | |] eqn:Ea; cbn [obind] in Hs; try discriminate.
       destruct (assign_s_shape T libm rty lty diff [] (update m (VLoc d) (default_of ty0)) (mkvar None (VLoc d)) None e m2 Ea) as [v ->].
       cbn [v_id] in Hs. apply (IH (update (update m (VLoc d) (default_of ty0)) (VLoc d) v) r (Forall_inv_tail Hwf)); [|exact Hs].
@@ -690,7 +716,7 @@ Section Sim.
       inversion Hs; subst m' j lg. cbn [mode_of logged].
       eapply sim_assign; eassumption.
     - (* SDecl *)
-      destruct Hwf as [[d [e [-> [Hd [Hb Hw]]]]] | [Hne Hall]];
+      destruct Hwf as [[d [e [-> [Hd [Hb Hw]]]]] | Hall];
         [|(* several variables with jump-free initialisers *)
           change (lower_decl t mask fuel ty0 vars s = Ok (c1, s1)) in Hl;
           change (sdecl ty0 vars (p_mem (wait t st)) = Ok (m', j, lg)) in Hs;
@@ -699,7 +725,10 @@ Section Sim.
           destruct (decl_list_sim n0 t mask fuel ty0 Hr vars s c1 s1 (wait t st) (m', j, lg) Hl Hall Hn Ha Hfr1 (wait_time t st Hle) Hs) as [Hrun [Hj [Hlg Hf]]];
           cbn [fst snd] in Hrun, Hj, Hlg, Hf; subst j lg; cbn [mode_of logged];
           (split; [|split; [exact G|split; [exact A|exact Hf]]]);
-          intros cmp; rewrite (wblk_entry T libm lty dsel t mask c1 st cmp Hat (Hx Hne)); apply Hrun].
+          intros cmp;
+          (destruct (forallb no_init vars) eqn:Esil;
+           [rewrite (wait_at t st (Hsil Esil)) in Hrun; rewrite (wait_at t st (Hsil Esil)); apply Hrun
+           |rewrite (wblk_entry T libm lty dsel t mask c1 st cmp Hat (Hx eq_refl)); apply Hrun])].
       cbn [LowerProg.sstep LowerProg.stmt_nonan] in Hs, Hnn. cbn [Lower.lower_stmt] in Hl.
       rewrite wait_mem in Hs, Hnn.
       set (m1 := update (p_mem st) (VLoc d) (default_of ty0)) in *.
@@ -805,7 +834,7 @@ Section Sim.
     - destruct Hwf as [Hv _]. destruct (assign_e m v aop e) as [m1| | |] eqn:Ea; cbn [obind] in Hs; try discriminate.
       inversion Hs; subst. destruct (assign_s_shape T libm rty lty diff [] m v aop e m' Ea) as [r ->].
       apply fresh_upd_var; assumption.
-    - destruct Hwf as [[d [e [-> [Hd _]]]] | [_ Hall]];
+    - destruct Hwf as [[d [e [-> [Hd _]]]] | Hall];
         [|change (sdecl ty0 vars m = Ok (m', j, lg)) in Hs; exact (proj1 (sdecl_fresh n0 ty0 vars m (m', j, lg) Hall Hfr Hs))].
       cbn [LowerProg.sstep] in Hs.
       destruct (assign_e (update m (VLoc d) (default_of ty0)) (mkvar None (VLoc d)) None e) as [m2| | |] eqn:Ea; cbn [obind] in Hs; try discriminate.
@@ -836,14 +865,14 @@ Section Sim.
     destruct stmt as [v aop e|ty0 vars|k c l0 jt0|l0 jt0|l0|opc args|d|e|]; cbn [wf_stmt] in Hwf; try contradiction;
       cbn [LowerProg.sstep] in Hs.
     - destruct (assign_e m v aop e); cbn [obind] in Hs; discriminate.
-    - destruct Hwf as [[d [e [-> _]]] | [_ Hall]].
+    - destruct Hwf as [[d [e [-> _]]] | Hall].
       + cbn [LowerProg.sstep] in Hs. destruct (assign_e _ _ None e); cbn [obind] in Hs; discriminate.
       + change (sdecl ty0 vars m = Ok (m', Some (l, jt), lg)) in Hs.
         assert (Hx : forall mm (r : mem * option (label * option Z) * option (Z * list value)) (vs : list (nat * option expr)),
                   Forall (wfvar n0) vs -> sdecl ty0 vs mm = Ok r -> snd (fst r) = None).
         { intros mm r vs. revert mm. induction vs as [|[d init] rest IH]; intros mm Hw Hs0.
           - cbn in Hs0. inversion Hs0; reflexivity.
-          - pose proof (Forall_inv Hw) as [_ [e [Hi _]]]. cbn [snd] in Hi. subst init. rewrite sdecl_cons in Hs0. cbv zeta in Hs0.
+          - rewrite sdecl_cons in Hs0. cbv zeta in Hs0. destruct init as [e|]; [|eapply IH; [exact (Forall_inv_tail Hw) | exact Hs0]].
             destruct (assign_e _ _ None e); cbn [obind] in Hs0; try discriminate. eapply IH; [exact (Forall_inv_tail Hw) | exact Hs0]. }
         pose proof (Hx m _ vars Hall Hs) as Hn0. cbn in Hn0. discriminate.
     - assert (Hc : forall v op r, count_e T libm rty lty diff m k v op l0 jt0 = Ok r -> snd r = Some (l, jt) -> l = l0).
@@ -891,10 +920,10 @@ Section Sim.
     destruct stmt as [v aop e|ty0 vars|k c l jt|l jt|l|opc args|d|e|]; cbn [wf_stmt] in Hwf; try contradiction;
       cbn [Lower.lower_stmt] in Hl; cbn [LowerProg.sseek is_silent].
     - destruct (Hlow _ _ _ Hl) as [G [A [N [Ht [Hx L]]]]]. auto 8.
-    - destruct Hwf as [[d [e [-> [Hd _]]]] | [Hne Hall]];
+    - destruct Hwf as [[d [e [-> [Hd _]]]] | Hall];
         [|change (lower_decl t mask fuel ty0 vars s = Ok (c1, s1)) in Hl;
           destruct (decl_list_static n0 t mask fuel ty0 vars s c1 s1 Hl Hall Hn) as [G [A [Hat [L [Hx N]]]]];
-          (split; [exact G|]); (split; [exact A|]); (split; [exact N|]); (split; [exact Hat|]); (split; [intros _; exact (Hx Hne) | exact L])].
+          (split; [exact G|]); (split; [exact A|]); (split; [exact N|]); (split; [exact Hat|]); (split; [exact Hx | exact L])].
       cbn [Lower.lower_stmt] in Hl. unfold seq, ret in Hl.
       destruct (lower t mask fuel (CAssignOp (mkvar None (VLoc d)) None e) s) as [[ca sa]| | |] eqn:Ela; try discriminate.
       inversion Hl; subst c1 s1. destruct (Hlow _ _ _ Ela) as [G [A [N [Ht [Hx L]]]]]. rewrite app_nil_r.
@@ -951,7 +980,7 @@ Section Sim.
   Lemma sseek_fresh n0 stmt m : wf_stmt n0 stmt -> fresh m n0 -> fresh (sseek stmt m) n0.
   Proof.
     intros Hwf Hfr. destruct stmt; cbn [wf_stmt] in Hwf; try contradiction; cbn [LowerProg.sseek]; try exact Hfr.
-    - destruct Hwf as [[d [e [-> [Hd _]]]] | [_ Hall]].
+    - destruct Hwf as [[d [e [-> [Hd _]]]] | Hall].
       + cbn [fold_left fst]. apply fresh_upd; assumption.
       + apply fold_reset_fresh; assumption.
     - apply fresh_upd; assumption.
